@@ -14,6 +14,14 @@ Oracle = a reference interpreter of the property statement (`ref_run`) that work
 initial state only (value semantics: it can not suffer from aliasing) and predicts the exact trace.  The
 operator behaviours are test fixtures shared by both sides; the sequencing / hand-over / reset logic under test
 is not.  Replicate independence is additionally asserted directly against the pre-run snapshot.
+
+Histories are scripts over one or two programmes.  Besides evolve / advance a script may change the stored initial
+state through the public setters between runs (`setstart`): to freshly built containers, to the programme's *own
+current working containers* (the burn-in idiom `prog.start_genome = prog.genome`), or to the working containers of
+the other programme; `fork` builds a second programme whose start_* arguments are the first programme's working
+containers; `setwork` assigns the stored containers to the working attributes (`prog.genome = prog.start_genome`).
+The reference interpreter gives all of these value semantics: the stored initial state is the *content* the
+containers had when the setter / constructor was called, and every later replicate starts from exactly that.
 """
 import copy
 import itertools
@@ -39,6 +47,10 @@ ASSUMPTIONS = [
     "hand-over is compared by content (deep fingerprint), not by object identity: an implementation that copied "
     "between steps would still satisfy the statement",
     "`advance` is only called after an `evolve` with nrep >= 1 (it needs a working state)",
+    "while a programme's working containers are, by the caller's own doing, the very objects stored as an initial state "
+    "(own or another programme's; after setstart-from-working / fork / setwork), `advance` is not called on it: an in-place "
+    "operator would then legitimately edit the stored state through the alias the caller created.  `evolve` (which resets "
+    "first) is called, and must leave the stored objects alone",
 ]
 
 NAMES = ("genome", "geno", "pheno", "bval", "gmod")
@@ -174,11 +186,11 @@ class Recorder:
         self.seq += 1
         return self.seq
 
-    def op_call(self, kind, cs, t_cur, t_max, miscout, extra_kwargs, mcfg=None):
+    def op_call(self, kind, cs, t_cur, t_max, miscout, extra_kwargs, mcfg=None, prog=0):
         tok = self.next_token()
         for c in cs:
             mutables(c, self.keepalive)
-        rec = {"kind": kind, "rep": self.lbook.rep, "t_cur": t_cur, "t_max": t_max, "recv": fp5(cs),
+        rec = {"kind": kind, "prog": prog, "rep": self.lbook.rep, "t_cur": t_cur, "t_max": t_max, "recv": fp5(cs),
                "miscout_in": fp(miscout), "extra_kwargs": sorted(extra_kwargs)}
         if kind == "mate":
             rec["mcfg"] = fp(mcfg)
@@ -213,42 +225,46 @@ class InitOp(InitializationOperator):
 
 
 class PselOp(ParentSelectionOperator):
-    def __init__(self, rec):
+    def __init__(self, rec, prog=0):
         self.rec = rec
+        self.prog = prog
 
     def pselect(self, genome, geno, pheno, bval, gmod, t_cur, t_max, miscout=None, **kwargs):
         cs = [genome, geno, pheno, bval, gmod]
-        tok, out = self.rec.op_call("psel", cs, t_cur, t_max, miscout, kwargs)
+        tok, out = self.rec.op_call("psel", cs, t_cur, t_max, miscout, kwargs, prog=self.prog)
         return (make_mcfg(tok, out),) + tuple(out)
 
 
 class MateOp(MatingOperator):
-    def __init__(self, rec):
+    def __init__(self, rec, prog=0):
         self.rec = rec
+        self.prog = prog
 
     def mate(self, mcfg, genome, geno, pheno, bval, gmod, t_cur, t_max, miscout=None, **kwargs):
         cs = [genome, geno, pheno, bval, gmod]
-        tok, out = self.rec.op_call("mate", cs, t_cur, t_max, miscout, kwargs, mcfg=mcfg)
+        tok, out = self.rec.op_call("mate", cs, t_cur, t_max, miscout, kwargs, mcfg=mcfg, prog=self.prog)
         return tuple(out)
 
 
 class EvalOp(EvaluationOperator):
-    def __init__(self, rec):
+    def __init__(self, rec, prog=0):
         self.rec = rec
+        self.prog = prog
 
     def evaluate(self, genome, geno, pheno, bval, gmod, t_cur, t_max, miscout=None, **kwargs):
         cs = [genome, geno, pheno, bval, gmod]
-        tok, out = self.rec.op_call("eval", cs, t_cur, t_max, miscout, kwargs)
+        tok, out = self.rec.op_call("eval", cs, t_cur, t_max, miscout, kwargs, prog=self.prog)
         return tuple(out)
 
 
 class SselOp(SurvivorSelectionOperator):
-    def __init__(self, rec):
+    def __init__(self, rec, prog=0):
         self.rec = rec
+        self.prog = prog
 
     def sselect(self, genome, geno, pheno, bval, gmod, t_cur, t_max, miscout=None, **kwargs):
         cs = [genome, geno, pheno, bval, gmod]
-        tok, out = self.rec.op_call("ssel", cs, t_cur, t_max, miscout, kwargs)
+        tok, out = self.rec.op_call("ssel", cs, t_cur, t_max, miscout, kwargs, prog=self.prog)
         return tuple(out)
 
 
@@ -300,24 +316,99 @@ class Book(Logbook):
 
 
 # ------------------------------------------------------------------------------------------------------
+# scripts: which commands take effect (harness bookkeeping shared by the real run and the reference run)
+# ------------------------------------------------------------------------------------------------------
+def _mask_idx(mask):
+    idx = [i for i in range(5) if i < len(mask) and mask[i]]
+    return idx or list(range(5))
+
+
+def plan(case):
+    """Resolves the raw script into the list of commands that are carried out.
+
+    evolve   ["evolve", nrep, ngen, loginit, p=0]
+    advance  ["advance", ngen, p=0]                  needs a working state; not while the working containers are somebody's
+                                                    stored initial state (see ASSUMPTIONS)
+    setstart ["setstart", src, mask, p, k]          prog_p.start_X = ... for the X in mask, through the public setters;
+                                                    src "work": prog_p's own working containers, "other": the other
+                                                    programme's working containers, "fresh": extra_states[k] built anew
+    setwork  ["setwork", mask, p]                   prog_p.X = prog_p.start_X for the X in mask
+    fork     ["fork"]                               second programme (own operator instances, same logbook) constructed with
+                                                    start_* = the first programme's five working containers
+    """
+    nextra = len(case.get("extra_states") or [])
+    ini = [case["init"] == "given"]     # per programme: start_* are set
+    have = [False]                      # per programme: has a complete working state
+    alias = [False]                     # per programme: its working containers are (possibly) a stored initial state
+    out = []
+    for cmd in case["script"]:
+        op = cmd[0]
+        if op == "evolve":
+            p = (cmd[4] if len(cmd) > 4 else 0) % len(ini)
+            out.append(["evolve", p, cmd[1], cmd[2], bool(cmd[3]), not ini[p]])
+            ini[p] = True
+            if cmd[1] >= 1:
+                have[p] = True
+                alias[p] = False
+        elif op == "advance":
+            p = (cmd[2] if len(cmd) > 2 else 0) % len(ini)
+            if have[p] and not alias[p]:
+                out.append(["advance", p, cmd[1]])
+        elif op == "setstart":
+            _, src, mask, p, k = cmd
+            p %= len(ini)
+            if not ini[p]:
+                continue
+            if src == "work" and have[p]:
+                alias[p] = True
+                out.append(["setstart", p, "work", _mask_idx(mask), None])
+            elif src == "other" and len(ini) == 2 and have[1 - p]:
+                alias[1 - p] = True
+                out.append(["setstart", p, "other", _mask_idx(mask), None])
+            elif src == "fresh" and nextra:
+                out.append(["setstart", p, "fresh", _mask_idx(mask), k % nextra])
+        elif op == "setwork":
+            p = cmd[2] % len(ini)
+            if ini[p]:
+                alias[p] = True
+                out.append(["setwork", p, _mask_idx(cmd[1])])
+        elif op == "fork":
+            if len(ini) == 1 and have[0]:
+                alias[0] = True
+                ini.append(True)
+                have.append(False)
+                alias.append(False)
+                out.append(["fork"])
+        else:
+            raise AssertionError(op)
+    return out
+
+
+# ------------------------------------------------------------------------------------------------------
 # reference interpreter of the property statement (value semantics only)
 # ------------------------------------------------------------------------------------------------------
 def ref_run(case):
+    """Returns (trace, per-programme final {"state", "t"}, final lbook.rep, per-programme fingerprint of the stored state).
+
+    Every container the interpreter keeps is a private deep copy: the stored initial state of a programme is the
+    *content* that was handed to the constructor / the start_* setters at the time of the call, whatever object
+    carried it."""
     beh, var = case["behaviours"], case["variants"]
     t_max = case["t_max"]
     trace = []
     seq = [0]
     rep = [case["rep0"]]
-    initial = [build_value(case["state"][n]) for n in NAMES]
-    if case["init"] == "initop" and any(cmd[0] == "evolve" for cmd in case["script"]):
-        trace.append({"kind": "init", "ncall": 1})
-    cur = {"state": None, "t": None}
+    first = [build_value(case["state"][n]) for n in NAMES]
+    initial = [first if case["init"] == "given" else None]      # per programme: the stored initial state (by value)
+    progs = [{"state": None, "t": None}]
+    ninit = [0]
 
-    def op(kind, mcfg=None):
+    def op(p, kind, mcfg=None):
+        cur = progs[p]
         seq[0] += 1
         tok = seq[0]
         private = copy.deepcopy(cur["state"])           # value semantics: nobody else can see these objects
-        r = {"kind": kind, "rep": rep[0], "t_cur": cur["t"], "t_max": t_max, "recv": fp5(private),
+        r = {"kind": kind, "prog": p, "rep": rep[0], "t_cur": cur["t"], "t_max": t_max, "recv": fp5(private),
              "miscout_in": fp({}), "extra_kwargs": []}
         if kind == "mate":
             r["mcfg"] = fp(mcfg)
@@ -326,58 +417,97 @@ def ref_run(case):
         cur["state"] = copy.deepcopy(out)
         return tok
 
-    def log(kind, tok, opkind, mcfg=None):
+    def log(p, kind, tok, opkind, mcfg=None):
+        cur = progs[p]
         r = {"kind": kind, "rep": rep[0], "t_cur": cur["t"], "t_max": t_max, "recv": fp5(cur["state"]),
              "misc": fp({"x_%s" % opkind: tok})}
         if kind == "log_psel":
             r["mcfg"] = fp(mcfg)
         trace.append(r)
 
-    def generations(ngen):
+    def generations(p, ngen):
+        cur = progs[p]
         for _ in range(ngen):
-            tok = op("psel")
+            tok = op(p, "psel")
             mcfg = make_mcfg(tok, cur["state"])
-            log("log_psel", tok, "psel", mcfg)
-            tok = op("mate", mcfg)
-            log("log_mate", tok, "mate")
-            tok = op("eval")
-            log("log_eval", tok, "eval")
-            tok = op("ssel")
-            log("log_ssel", tok, "ssel")
+            log(p, "log_psel", tok, "psel", mcfg)
+            tok = op(p, "mate", mcfg)
+            log(p, "log_mate", tok, "mate")
+            tok = op(p, "eval")
+            log(p, "log_eval", tok, "eval")
+            tok = op(p, "ssel")
+            log(p, "log_ssel", tok, "ssel")
             cur["t"] += 1
 
-    for cmd in case["script"]:
+    for cmd in plan(case):
         if cmd[0] == "evolve":
-            _, nrep, ngen, loginit = cmd
+            _, p, nrep, ngen, loginit, needs_init = cmd
+            cur = progs[p]
+            if needs_init:
+                ninit[0] += 1
+                trace.append({"kind": "init", "ncall": ninit[0]})
+                initial[p] = first
             for _ in range(nrep):
                 rep[0] += 1
-                cur["state"] = copy.deepcopy(initial)
+                cur["state"] = copy.deepcopy(initial[p])
                 cur["t"] = 0
-                tok = op("eval")
+                tok = op(p, "eval")
                 if loginit:
-                    log("log_init", tok, "eval")
+                    log(p, "log_init", tok, "eval")
                 cur["t"] += 1
-                generations(ngen)
+                generations(p, ngen)
         elif cmd[0] == "advance":
-            if cur["state"] is None:
-                continue
-            generations(cmd[1])
-    return trace, cur, rep[0], fp5(initial)
+            generations(cmd[1], cmd[2])
+        elif cmd[0] == "setstart":
+            _, p, src, idx, k = cmd
+            new = list(initial[p])
+            for i in idx:
+                if src == "work":
+                    new[i] = copy.deepcopy(progs[p]["state"][i])
+                elif src == "other":
+                    new[i] = copy.deepcopy(progs[1 - p]["state"][i])
+                else:
+                    new[i] = build_value(case["extra_states"][k][NAMES[i]])
+            initial[p] = new
+        elif cmd[0] == "setwork":
+            _, p, idx = cmd
+            if progs[p]["state"] is not None:
+                st_ = list(progs[p]["state"])
+                for i in idx:
+                    st_[i] = copy.deepcopy(initial[p][i])
+                progs[p]["state"] = st_
+        elif cmd[0] == "fork":
+            initial.append(copy.deepcopy(progs[0]["state"]))
+            progs.append({"state": None, "t": None})
+    return trace, progs, rep[0], [None if ini is None else fp5(ini) for ini in initial]
 
 
-# self-test of the reference interpreter on a hand-written expectation (import time; failure = harness error)
+# self-test of the reference interpreter on hand-written expectations (import time; failure = harness error)
 def _selftest():
     case = {"state": {n: {"a": {"__nd__": [1]}} for n in NAMES}, "init": "given", "rep0": 0, "t_max": 5,
             "behaviours": {k: "same" for k in ("psel", "mate", "eval", "ssel")},
             "variants": {k: "all" for k in ("psel", "mate", "eval", "ssel")},
             "script": [["evolve", 2, 1, True]]}
-    tr, cur, rep, ini = ref_run(case)
+    tr, progs, rep, ini = ref_run(case)
     kinds = [(r["kind"], r["rep"], r["t_cur"]) for r in tr]
     one = lambda r: [("eval", r, 0), ("log_init", r, 0), ("psel", r, 1), ("log_psel", r, 1), ("mate", r, 1),
                      ("log_mate", r, 1), ("eval", r, 1), ("log_eval", r, 1), ("ssel", r, 1), ("log_ssel", r, 1)]
     assert kinds == one(1) + one(2), kinds
-    assert rep == 2 and cur["t"] == 2
-    assert all(r["recv"] == ini for r in tr)
+    assert rep == 2 and progs[0]["t"] == 2
+    assert all(r["recv"] == ini[0] for r in tr)
+
+    # burn-in idiom with stamping operators: the second evolve starts every replicate from the content reached by the first
+    case = dict(case, behaviours={k: "pure" for k in ("psel", "mate", "eval", "ssel")},
+                script=[["evolve", 1, 0, False], ["setstart", "work", [True] * 5, 0, 0], ["advance", 1, 0],
+                        ["evolve", 2, 0, False], ["fork"], ["evolve", 1, 0, False, 1]])
+    assert [c[0] for c in plan(case)] == ["evolve", "setstart", "evolve", "fork", "evolve"]     # aliased: no advance
+    tr, progs, rep, ini = ref_run(case)
+    a = {"a": numpy.array([1], dtype="int64")}
+    s1 = dict(a, stamp=["eval", 1], hist=[1])
+    s2 = dict(a, stamp=["eval", 3], hist=[1, 3])
+    assert [r["recv"] for r in tr] == [fp5([a] * 5), fp5([s1] * 5), fp5([s1] * 5), fp5([s2] * 5)], tr
+    assert [r["prog"] for r in tr] == [0, 0, 0, 1] and [r["t_cur"] for r in tr] == [0] * 4
+    assert ini == [fp5([s1] * 5), fp5([s2] * 5)] and rep == 4
 
 
 _selftest()
@@ -388,6 +518,7 @@ _selftest()
 # ------------------------------------------------------------------------------------------------------
 FIELD_CLAUSE = {
     "kind": "trace.operator_order",
+    "prog": "trace.operator_order",
     "rep": "trace.replicate_number",
     "t_cur": "trace.time_index",
     "t_max": "trace.t_max_passed_through",
@@ -400,89 +531,167 @@ FIELD_CLAUSE = {
 }
 
 
+def _stored(prog):
+    return [prog.start_genome, prog.start_geno, prog.start_pheno, prog.start_bval, prog.start_gmod]
+
+
 def run_check(case, ctx):
     script = case["script"]
+    cmds = plan(case)
     beh = case["behaviours"]
-    nrep_tot = sum(c[1] for c in script if c[0] == "evolve")
-    ngen_max = max([c[2] for c in script if c[0] == "evolve"] + [0])
+    evs = [c for c in cmds if c[0] == "evolve"]
+    nrep_tot = sum(c[2] for c in evs)
+    ngen_max = max([c[3] for c in evs] + [0])
     mutating = [k for k in ("psel", "mate", "eval", "ssel") if beh[k] in ("inplace", "mutnew")]
     ctx.label("nrep=0", nrep_tot == 0)
     ctx.label("ngen=0", ngen_max == 0)
     ctx.label("nrep>=2", nrep_tot >= 2)
     ctx.label("init_by_operator", case["init"] == "initop")
     ctx.label("has_advance", any(c[0] == "advance" for c in script))
-    ctx.label("two_evolves", sum(c[0] == "evolve" for c in script) >= 2)
-    ctx.label("loginit_false", any(c[0] == "evolve" and not c[3] for c in script))
+    ctx.label("two_evolves", len(evs) >= 2)
+    ctx.label("loginit_false", any(not c[4] for c in evs))
     ctx.label("eval_mutates_in_place", beh["eval"] in ("inplace", "mutnew"))
     ctx.label("any_inplace", bool(mutating))
     ctx.label("all_pure_or_same", not mutating)
     for k in mutating:
         if beh[k] == "inplace":
             ctx.label("inplace_variant_%s" % case["variants"][k])
-    first_evolve_two_reps = any(c[0] == "evolve" and c[1] >= 2 and c[2] >= 1 for c in script)
+    first_evolve_two_reps = any(c[2] >= 2 and c[3] >= 1 for c in evs)
     ctx.nontrivial((nrep_tot >= 2) and ngen_max >= 1 and bool(mutating))
     ctx.label("rule_nontrivial_single_evolve", first_evolve_two_reps and bool(mutating))
+    # histories in which containers the programme has worked on are (or were made) the stored initial state and a
+    # further reset follows: fed[q] = programme q's working containers are somebody's stored start
+    fed = [False, False]
+    for c in cmds:
+        if c[0] == "setstart":
+            ctx.label("setstart_%s" % c[2])
+            ctx.label("setstart_partial", len(c[3]) < 5)
+            if c[2] == "work":
+                fed[c[1]] = True
+            elif c[2] == "other":
+                fed[1 - c[1]] = True
+        elif c[0] == "setwork":
+            ctx.label("setwork_from_start")
+            fed[c[1]] = True
+        elif c[0] == "fork":
+            ctx.label("second_programme_from_working_containers")
+            fed[0] = True
+        elif c[0] == "evolve" and c[2] >= 1:
+            if fed[c[1]]:
+                ctx.label("reset_while_working_containers_are_a_stored_start")
+                fed[c[1]] = False
+            ctx.label("second_programme_evolved", c[1] == 1)
+        elif c[0] == "advance":
+            ctx.label("advance_effective")
 
     # ---- build the programme ------------------------------------------------------------------------------
     rec = Recorder(beh, case["variants"])
     book = Book(rec, case["rep0"])
     rec.lbook = book
     initop = InitOp(rec, case["state"])
+    owned = []                       # (container built by the harness and handed to the programme, its fingerprint then)
+
+    def make_prog(tag, containers):
+        kw = {} if containers is None else {"start_" + n: c for n, c in zip(NAMES, containers)}
+        return RecurrentSelectionBreedingProgram(
+            initop=initop, pselop=PselOp(rec, tag), mateop=MateOp(rec, tag), evalop=EvalOp(rec, tag),
+            sselop=SselOp(rec, tag), t_max=case["t_max"], **kw)
+
     given = None
-    kw = {}
     if case["init"] == "given":
         given = [build_value(case["state"][n]) for n in NAMES]
-        kw = {"start_" + n: c for n, c in zip(NAMES, given)}
-    prog = RecurrentSelectionBreedingProgram(
-        initop=initop, pselop=PselOp(rec), mateop=MateOp(rec), evalop=EvalOp(rec), sselop=SselOp(rec),
-        t_max=case["t_max"], **kw)
-    initial_fp = fp5([build_value(case["state"][n]) for n in NAMES])
+        owned.extend((c, fp(c)) for c in given)
+    progs = [make_prog(0, given)]
+    # what the stored initial state must be, by content: fingerprints taken when the containers were handed over
+    stored_fp = [fp5([build_value(case["state"][n]) for n in NAMES])]
+    marks = [[0] * 5]                # per stored container: len(rec.keepalive) when it was stored
+    evolved = [False]
+    runs = []                        # (programme, first trace index, end trace index, stored_fp at the time)
+
+    def stored_state_untouched(after):
+        for q, pr in enumerate(progs):
+            st_ = _stored(pr)
+            if all(isinstance(s, dict) for s in st_):
+                ctx.check(fp5(st_) == stored_fp[q], "start.unmodified",
+                          lambda: "start_* containers of programme %d after %s differ from the contents they had when they "
+                                  "were stored:\n got %s\n want %s" % (q, after, fp5(st_), stored_fp[q]))
 
     # ---- run ----------------------------------------------------------------------------------------------------
-    have_state = False
-    for cmd in script:
+    for cmd in cmds:
         if cmd[0] == "evolve":
-            prog.evolve(nrep=cmd[1], ngen=cmd[2], lbook=book, loginit=bool(cmd[3]))
-            have_state = have_state or cmd[1] >= 1
+            _, p, nrep, ngen, loginit, _ni = cmd
+            i0 = len(rec.trace)
+            progs[p].evolve(nrep=nrep, ngen=ngen, lbook=book, loginit=loginit)
+            runs.append((p, i0, len(rec.trace), list(stored_fp[p])))
+            evolved[p] = True
         elif cmd[0] == "advance":
-            if have_state:
-                prog.advance(ngen=cmd[1], lbook=book)
+            progs[cmd[1]].advance(ngen=cmd[2], lbook=book)
+        elif cmd[0] == "setstart":
+            _, p, src, idx, k = cmd
+            for i in idx:
+                n = NAMES[i]
+                if src == "work":
+                    obj = getattr(progs[p], n)
+                elif src == "other":
+                    obj = getattr(progs[1 - p], n)
+                else:
+                    obj = build_value(case["extra_states"][k][n])
+                    owned.append((obj, fp(obj)))
+                stored_fp[p][i] = fp(obj)
+                marks[p][i] = len(rec.keepalive)
+                setattr(progs[p], "start_" + n, obj)
+        elif cmd[0] == "setwork":
+            _, p, idx = cmd
+            for i in idx:
+                setattr(progs[p], NAMES[i], getattr(progs[p], "start_" + NAMES[i]))
+        elif cmd[0] == "fork":
+            objs = [getattr(progs[0], n) for n in NAMES]
+            stored_fp.append(fp5(objs))
+            marks.append([len(rec.keepalive)] * 5)
+            evolved.append(False)
+            progs.append(make_prog(1, objs))
+        stored_state_untouched("%s" % cmd[:2])
 
     # ---- reference ---------------------------------------------------------------------------------------------
-    exp, cur, exp_rep, _ = ref_run(case)
+    exp, ref_progs, exp_rep, _ = ref_run(case)
     got = rec.trace
 
-    # replicate independence, asserted directly against the pre-run snapshot (not via the reference run)
-    starts = [r for i, r in enumerate(got) if r["kind"] == "eval" and r["t_cur"] == 0]
-    for i, r in enumerate(starts):
-        ctx.check(r["recv"] == initial_fp, "replicate.starts_from_initial_state",
-                  lambda: "replicate #%d (logbook rep %s) started from a state different from the initial one:\n got %s\n want %s"
-                          % (i + 1, r["rep"], r["recv"], initial_fp))
-    ctx.check(len(starts) == nrep_tot, "replicate.one_initial_evaluation_each",
-              "evaluations at t_cur=0: %d, replicates requested: %d" % (len(starts), nrep_tot))
+    # replicate independence, asserted directly against the snapshots taken at hand-over (not via the reference run)
+    nstarts = 0
+    for p, i0, i1, want in runs:
+        for r in got[i0:i1]:
+            if r["kind"] == "eval" and r["t_cur"] == 0:
+                nstarts += 1
+                ctx.check(r["recv"] == want, "replicate.starts_from_initial_state",
+                          lambda: "replicate #%d (logbook rep %s, programme %d) started from a state different from the stored "
+                                  "initial one:\n got %s\n want %s" % (nstarts, r["rep"], p, r["recv"], want))
+    ctx.check(nstarts == nrep_tot, "replicate.one_initial_evaluation_each",
+              "evaluations at t_cur=0: %d, replicates requested: %d" % (nstarts, nrep_tot))
 
     # the stored initial state
-    if any(c[0] == "evolve" for c in script):
-        stored = [prog.start_genome, prog.start_geno, prog.start_pheno, prog.start_bval, prog.start_gmod]
+    for p, prog in enumerate(progs):
+        if not evolved[p]:
+            continue
+        stored = _stored(prog)
         ctx.check(all(isinstance(s, dict) for s in stored), "start.is_set_after_evolve")
-        ctx.check(fp5(stored) == initial_fp, "start.unmodified",
-                  lambda: "start_* containers after the run differ from their pre-run contents:\n got %s\n want %s"
-                          % (fp5(stored), initial_fp))
-        if given is not None:
-            ctx.check(fp5(given) == initial_fp, "start.caller_containers_modified",
-                      lambda: "containers passed as start_* were modified: %s" % fp5(given))
-            ctx.check(initop.ncalls == 0, "trace.initialize_called_although_state_given")
-        smut = []
-        for s in stored:
-            mutables(s, smut)
-        sids = {id(o) for o in smut}
-        shared = [type(o).__name__ for o in rec.keepalive if id(o) in sids]
-        sarr = [o for o in smut if isinstance(o, numpy.ndarray)]
-        for o in rec.keepalive:
-            if isinstance(o, numpy.ndarray) and any(numpy.shares_memory(o, a) for a in sarr):
-                shared.append("ndarray-memory")
-                break
+        shared = []
+        for i, s in enumerate(stored):
+            later = rec.keepalive[marks[p][i]:]         # everything handed to an operator / the logbook since s was stored
+            smut = mutables(s)
+            sids = {id(o) for o in smut}
+            shared.extend(type(o).__name__ for o in later if id(o) in sids)
+            sarr = [o for o in smut if isinstance(o, numpy.ndarray)]
+            if sarr:
+                for o in later:
+                    if isinstance(o, numpy.ndarray) and any(numpy.shares_memory(o, a) for a in sarr):
+                        shared.append("ndarray-memory")
+                        break
         ctx.check(not shared, "start.shares_mutable_objects_with_working_state", lambda: "shared: %s" % shared[:5])
+    for obj, f in owned:
+        ctx.check(fp(obj) == f, "start.caller_containers_modified",
+                  lambda: "a container built by the caller and passed as start_* was modified: %s\n was %s" % (fp(obj), f))
+    if given is not None:
+        ctx.check(initop.ncalls == 0, "trace.initialize_called_although_state_given")
 
     # ---- trace comparison ------------------------------------------------------------------------------------
     for i in range(min(len(got), len(exp))):
@@ -498,7 +707,7 @@ def run_check(case, ctx):
                      % (i, g["kind"], g.get("rep"), g.get("t_cur"), e["kind"], e.get("rep"), e.get("t_cur"),
                         [r["kind"] for r in got[max(0, i - 6): i + 1]]))
             break
-        bad = [k for k in ("rep", "t_cur", "t_max", "recv", "mcfg", "misc", "miscout_in", "extra_kwargs", "ncall")
+        bad = [k for k in ("prog", "rep", "t_cur", "t_max", "recv", "mcfg", "misc", "miscout_in", "extra_kwargs", "ncall")
                if g.get(k) != e.get(k)]
         k = bad[0]
         ctx.fail(FIELD_CLAUSE[k], "call #%d %s (rep %s, t %s): field %s\n got  %s\n want %s"
@@ -518,12 +727,14 @@ def run_check(case, ctx):
               "rep assignments: %s" % book.rep_history)
 
     # ---- final working state and clock --------------------------------------------------------------------------
-    if cur["state"] is not None:
-        final = [prog.genome, prog.geno, prog.pheno, prog.bval, prog.gmod]
-        ctx.check(fp5(final) == fp5(cur["state"]), "final.working_state_is_last_returned",
-                  lambda: "got %s\nwant %s" % (fp5(final), fp5(cur["state"])))
-        ctx.check(prog.t_cur == cur["t"], "final.time_index", "t_cur=%r expected %r" % (prog.t_cur, cur["t"]))
-    ctx.check(prog.t_max == case["t_max"], "final.t_max_changed")
+    for p, prog in enumerate(progs):
+        cur = ref_progs[p]
+        if cur["state"] is not None:
+            final = [prog.genome, prog.geno, prog.pheno, prog.bval, prog.gmod]
+            ctx.check(fp5(final) == fp5(cur["state"]), "final.working_state_is_last_returned",
+                      lambda: "programme %d: got %s\nwant %s" % (p, fp5(final), fp5(cur["state"])))
+            ctx.check(prog.t_cur == cur["t"], "final.time_index", "t_cur=%r expected %r" % (prog.t_cur, cur["t"]))
+        ctx.check(prog.t_max == case["t_max"], "final.t_max_changed")
 
 
 # ------------------------------------------------------------------------------------------------------
@@ -576,22 +787,104 @@ def container(draw):
     return c
 
 
+_mask = st.sampled_from([[True] * 5, [True] * 5, [True, False, False, True, False], [False, True, True, False, True],
+                         [False, False, False, False, True], [True, True, True, True, False]])
+
+
 @st.composite
 def random_case(draw):
     state = {n: draw(container()) for n in NAMES}
     beh = {k: draw(st.sampled_from(BEHAVIOURS + ("inplace", "mutnew"))) for k in ("psel", "mate", "eval", "ssel")}
     var = {k: draw(st.sampled_from(INPLACE_VARIANTS)) for k in ("psel", "mate", "eval", "ssel")}
-    ncmd = draw(st.sampled_from([1, 1, 1, 2, 2, 3]))
+    # plain histories (evolve / advance on one programme) and histories in which the stored initial state is changed
+    # between runs or a second programme is built from the first one's working containers
+    rich = draw(st.sampled_from([True, False, True, False]))
+    ncmd = draw(st.sampled_from([4, 3, 5, 4, 6, 3, 2] if rich else [1, 1, 1, 2, 2, 3]))
     script = []
-    for _ in range(ncmd):
-        if draw(st.integers(0, 3)) == 0 and script:
-            script.append(["advance", draw(st.integers(0, 3))])
-        else:
+    extra = []
+    early_fork = rich and draw(st.sampled_from([True, False, False]))
+    final_evolve = rich and draw(st.sampled_from([True, True, False]))
+    for j in range(ncmd):
+        kind = draw(st.sampled_from(["setstart", "evolve", "setstart", "evolve", "advance", "setstart", "setwork", "evolve", "setstart", "fork"])) if rich \
+            else ("advance" if draw(st.integers(0, 3)) == 0 else "evolve")
+        if not script:
+            kind = "evolve"
+        elif early_fork and len(script) == 1:
+            kind = "fork"
+        elif final_evolve and j == ncmd - 1:
+            kind = "evolve"
+        p = draw(st.integers(0, 1)) if rich else 0
+        if kind == "advance":
+            script.append(["advance", draw(st.integers(0, 3))] + ([p] if rich else []))
+        elif kind == "evolve":
             script.append(["evolve", draw(st.sampled_from([2, 1, 3, 0, 4, 2])), draw(st.sampled_from([1, 2, 0, 3, 5, 4, 1])),
-                           draw(st.booleans())])
-    return {"state": state, "init": draw(st.sampled_from(["given", "given", "initop"])),
+                           draw(st.booleans())] + ([p] if rich else []))
+        elif kind == "setstart":
+            src = draw(st.sampled_from(["other", "work", "other", "fresh"] if early_fork else ["work", "work", "fresh", "other"]))
+            if src == "fresh":
+                extra.append({n: draw(container()) for n in NAMES})
+            script.append(["setstart", src, draw(_mask), p, len(extra) - 1 if src == "fresh" else 0])
+        elif kind == "setwork":
+            script.append(["setwork", draw(_mask), p])
+        else:
+            script.append(["fork"])
+    case = {"state": state, "init": draw(st.sampled_from(["given", "given", "initop"])),
             "rep0": draw(st.sampled_from([0, 0, 1, 7, -3])), "t_max": draw(st.integers(0, 9)),
             "behaviours": beh, "variants": var, "script": script}
+    if rich:
+        case["extra_states"] = extra
+    return case
+
+
+# finite block for histories that feed working containers back as a stored initial state (or the reverse)
+_F = [True] * 5
+_P1 = [True, False, False, True, False]
+_P2 = [False, True, True, False, True]
+FEEDBACK_SCRIPTS = [
+    # burn-in, then the reached population becomes the initial state of the experiment
+    [["evolve", 2, 1, True, 0], ["setstart", "work", _F, 0, 0], ["evolve", 2, 1, True, 0]],
+    [["evolve", 1, 0, False, 0], ["setstart", "work", _P1, 0, 0], ["evolve", 2, 2, True, 0], ["advance", 1, 0]],
+    [["evolve", 1, 2, True, 0], ["setstart", "work", _P2, 0, 0], ["advance", 1, 0], ["evolve", 0, 1, True, 0],
+     ["evolve", 1, 1, False, 0], ["setstart", "work", _F, 0, 0], ["evolve", 2, 0, True, 0]],
+    # a second programme starts from the first one's population; both keep running
+    [["evolve", 1, 1, True, 0], ["fork"], ["evolve", 1, 1, True, 0], ["evolve", 2, 1, True, 1]],
+    [["evolve", 1, 1, False, 0], ["fork"], ["evolve", 1, 1, True, 1], ["evolve", 1, 0, True, 0], ["evolve", 1, 0, True, 1],
+     ["advance", 1, 0], ["advance", 1, 1]],
+    [["evolve", 1, 1, True, 0], ["fork"], ["evolve", 1, 1, True, 1], ["setstart", "other", _F, 0, 0], ["evolve", 1, 1, True, 1],
+     ["evolve", 2, 1, True, 0]],
+    [["evolve", 1, 0, True, 0], ["fork"], ["evolve", 2, 1, True, 1], ["setstart", "other", _P1, 0, 0], ["evolve", 1, 1, True, 0],
+     ["evolve", 1, 0, True, 1], ["evolve", 1, 0, True, 0]],
+    # the stored containers assigned to the working attributes, then a run
+    [["setwork", _F, 0], ["evolve", 2, 1, True, 0]],
+    [["evolve", 1, 1, True, 0], ["setwork", _P2, 0], ["evolve", 2, 0, False, 0], ["advance", 2, 0]],
+    # freshly built containers through the setters between runs
+    [["evolve", 1, 1, True, 0], ["setstart", "fresh", _F, 0, 0], ["evolve", 2, 1, True, 0]],
+    [["evolve", 2, 0, True, 0], ["setstart", "fresh", _P1, 0, 0], ["advance", 1, 0], ["evolve", 1, 2, False, 0],
+     ["setstart", "work", _P1, 0, 0], ["evolve", 1, 1, True, 0]],
+]
+FRESH_STATE = {
+    "genome": {"cand": {"__nd__": [21, 22]}, "z": [[3]]},
+    "geno": {},
+    "pheno": {"main": {"__nd__": [[23, 24]]}},
+    "bval": {"q": {"r": [25]}, "cand": {"__nd__": [26]}},
+    "gmod": {"true": {"__nd__": [27]}, "l": [28, [29]]},
+}
+
+
+def feedback_cases(tier):
+    out = []
+    for si, script in enumerate(FEEDBACK_SCRIPTS):
+        for ci, combo in enumerate(itertools.product(BEHAVIOURS, repeat=4)):
+            if tier == "quick" and combo[0] != combo[1]:
+                continue                                  # quick: pselect and mate behave alike (64 of the 256 combinations)
+            out.append({
+                "state": FIXED_STATE, "extra_states": [FRESH_STATE],
+                "init": "initop" if (si + ci) % 3 == 0 else "given", "rep0": 0, "t_max": 7,
+                "behaviours": dict(zip(("psel", "mate", "eval", "ssel"), combo)),
+                "variants": {k: INPLACE_VARIANTS[(ci + j + si) % 4] for j, k in enumerate(("psel", "mate", "eval", "ssel"))},
+                "script": script,
+            })
+    return out
 
 
 SUBCHECKS = [
@@ -600,11 +893,27 @@ SUBCHECKS = [
                   "(pselect, mate, evaluate, sselect) over {pure, same, inplace, mutnew} on a fixed nested initial state; "
                   "non-trivial = nrep>=2, ngen>=1 and at least one operator mutating in place",
              required_labels=("nrep=0", "ngen=0", "nrep>=2", "eval_mutates_in_place", "init_by_operator")),
-    SubCheck("random", run_check, random_case(), quick=500, thorough=4000, shards_quick=4, shards_thorough=16,
-             rule="generated: script of 1-3 evolve(nrep 0-4, ngen 0-5, loginit)/advance(0-3) calls on one programme, random "
-                  "nested initial containers (empty dicts included), state given or produced by the init operator, "
-                  "behaviour + in-place variant per operator, lbook.rep start, t_max; non-trivial = >=2 replicates in "
-                  "total, ngen>=1 and at least one operator mutating in place; distinct by sha1 of the case",
+    SubCheck("feedback", run_check, cases=feedback_cases, shards_quick=2, shards_thorough=4,
+             rule="finite: 11 fixed histories in which the stored initial state is replaced between runs through the public "
+                  "setters -- by the programme's own working containers (all five or some), by the other programme's, by "
+                  "freshly built ones -- or a second programme is constructed from the first one's working containers, or the "
+                  "stored containers are assigned to the working attributes; each followed by further evolve calls; x 64 "
+                  "(quick) / 256 (thorough) behaviour combinations; non-trivial = >=2 replicates in total, ngen>=1 and at "
+                  "least one operator mutating in place",
+             required_labels=("reset_while_working_containers_are_a_stored_start", "second_programme_evolved",
+                              "setstart_work", "setstart_other", "setstart_fresh", "setstart_partial", "setwork_from_start",
+                              "second_programme_from_working_containers", "advance_effective", "init_by_operator")),
+    SubCheck("random", run_check, random_case(), quick=600, thorough=4000, shards_quick=4, shards_thorough=16,
+             rule="generated: half plain scripts of 1-3 evolve(nrep 0-4, ngen 0-5, loginit)/advance(0-3) calls on one "
+                  "programme, half scripts of 2-6 commands over one or two programmes that also replace the stored initial "
+                  "state between runs (own / other programme's working containers, fresh containers; all five or a subset), "
+                  "assign stored containers to the working attributes, or construct the second programme from the first "
+                  "one's working containers; random nested initial containers (empty dicts included), state given or "
+                  "produced by the init operator, behaviour + in-place variant per operator, lbook.rep start, t_max; "
+                  "non-trivial = >=2 replicates in total, ngen>=1 and at least one operator mutating in place; distinct by "
+                  "sha1 of the case",
              required_labels=("nrep=0", "ngen=0", "nrep>=2", "has_advance", "two_evolves", "loginit_false",
-                              "init_by_operator", "inplace_variant_clear", "inplace_variant_overwrite")),
+                              "init_by_operator", "inplace_variant_clear", "inplace_variant_overwrite",
+                              "reset_while_working_containers_are_a_stored_start", "second_programme_evolved",
+                              "setstart_work", "setstart_other", "setstart_fresh", "setwork_from_start")),
 ]
